@@ -25,7 +25,8 @@ FLOORS = {
 }
 N = {"quick": 800, "thorough": 40000}
 SHARDS = {"quick": 8, "thorough": 14}
-PROBES = ["1 Minn. L. Rev. ___. Id. at 5.", "42 U.S.C. § 1983", "\ud800 1 U.S. 1", "<§\x00>", "eyecite",
+PROBES = ["1 U.S. " + "9" * 5000 + ". Id. at 5.", "1 U.S. 5. Id. at " + "9" * 5000 + ".",
+          "Foo v. Bar (" + "1" * 5000 + ") 1 U.S. 1", "1 Minn. L. Rev. ___. Id. at 5.", "42 U.S.C. § 1983", "\ud800 1 U.S. 1", "<§\x00>", "eyecite",
           "Foo\tv. Bar, 1 U.S. 1", "1 U.S. 1 (" * 50, "Id. at " + "9" * 400, "1 U.S. " + "9" * 5000,
           "§" * 2000, "\n" * 500 + "Id.", "Foo, supra, at 5\x00", "x v. y (٢٠٠٠) 1 U.S. 1", "1 U.S. 1 (٢٠٠٠)",
           "", " ", "\x00", "Id.", "supra", "v.", "§", "1 U.S. ___", "___ U.S. ___", "Foo v. Bar, 1 U.S. 1, ___ (1999)",
@@ -72,6 +73,9 @@ def make_text(rng, rec):
         base = base[:i] + frag + base[i:]
     if rng.random() < 0.2:
         base = gen.mutate(base, rng, rec=None, classes=["ws", "brackets"])
+    if rng.random() < 0.25:
+        base += rng.choice([". Id. at 5.", " Id. at " + gen.num(rng) + ".", "; id., at " + rng.choice(gen.HOSTILE["longnum"]),
+                            ". Ibid.", "; Foo, supra, at " + rng.choice(gen.HOSTILE["longnum"])])
     return base
 
 
